@@ -613,6 +613,20 @@ func (c *Client) delete(id transactionID) {
 	c.mux.Unlock()
 }
 
+// unregister removes t from the transaction table and reports whether it
+// was still registered under id. False means that t has been completed, and
+// returned to the pool, by a concurrent response or Close.
+func (c *Client) unregister(id transactionID, t *clientTransaction) bool {
+	c.mux.Lock()
+	defer c.mux.Unlock()
+	if registered, ok := c.t[id]; !ok || registered != t {
+		return false
+	}
+	delete(c.t, id)
+
+	return true
+}
+
 type buffer struct {
 	buf []byte
 }
@@ -677,7 +691,10 @@ func (c *Client) handleAgentCallback(event Event) { //nolint:cyclop
 	}
 	// Starting agent transaction.
 	if startErr := c.a.Start(id, timeOut); startErr != nil {
-		c.delete(id)
+		if !c.unregister(id, transaction) {
+			// Completed concurrently, transaction is not ours any more.
+			return
+		}
 		event.Error = startErr
 		transaction.handle(event)
 		putClientTransaction(transaction)
@@ -687,7 +704,10 @@ func (c *Client) handleAgentCallback(event Event) { //nolint:cyclop
 	// Writing message to connection again.
 	_, writeErr := c.c.Write(buff.buf)
 	if writeErr != nil {
-		c.delete(id)
+		if !c.unregister(id, transaction) {
+			// Completed concurrently, transaction is not ours any more.
+			return
+		}
 		event.Error = writeErr
 		// Stopping agent transaction instead of waiting until it's deadline.
 		// This will call handleAgentCallback with "ErrTransactionStopped" error
